@@ -12,14 +12,14 @@ dir=${dir#./}; dir=${dir%/}
 echo "== $id $m demo dir: $dir"
 git -C $wt checkout -q -- . ; git -C $wt clean -fdq
 mkdir -p $wt/$dir && cp $demo $wt/$dir/${m}_demo_test.go
-(cd $wt/$dir && go test -vet=off -count=1 -run . . > /tmp/vs_clean.log 2>&1); rc_clean=$?
+(cd $wt/$dir && go test -vet=off -count=1 -run . . > /tmp/vs_clean_$id.log 2>&1); rc_clean=$?
 git -C $wt apply $out/$m.diff || { echo "patch does not apply"; exit 3; }
-(cd $wt/$dir && go test -vet=off -count=1 -run . . > /tmp/vs_mut.log 2>&1); rc_mut=$?
+(cd $wt/$dir && go test -vet=off -count=1 -run . . > /tmp/vs_mut_$id.log 2>&1); rc_mut=$?
 rm -f $wt/$dir/${m}_demo_test.go; rmdir $wt/$dir 2>/dev/null
-(cd $wt && go test -mod=mod -vet=off -count=1 ./... > /tmp/vs_suite.log 2>&1); rc_suite=$?
+(cd $wt && go test -mod=mod -vet=off -count=1 -timeout 120m ./... > /tmp/vs_suite_$id.log 2>&1); rc_suite=$?
 git -C $wt checkout -q -- . ; git -C $wt clean -fdq
 echo "demo clean rc=$rc_clean (want 0), demo mutated rc=$rc_mut (want !=0), suite with mutant rc=$rc_suite (want 0)"
-[ $rc_clean -ne 0 ] && tail -15 /tmp/vs_clean.log
-[ $rc_mut -eq 0 ] && tail -5 /tmp/vs_mut.log
-[ $rc_suite -ne 0 ] && grep -v "^ok\|no test files" /tmp/vs_suite.log | head -20
+[ $rc_clean -ne 0 ] && tail -15 /tmp/vs_clean_$id.log
+[ $rc_mut -eq 0 ] && tail -5 /tmp/vs_mut_$id.log
+[ $rc_suite -ne 0 ] && grep -v "^ok\|no test files" /tmp/vs_suite_$id.log | head -20
 [ $rc_clean -eq 0 ] && [ $rc_mut -ne 0 ] && [ $rc_suite -eq 0 ] && echo "VERIFIED $id $m" || echo "REJECTED $id $m"
